@@ -1138,3 +1138,39 @@ for _alg in ('md5', 'sha256', 'sha384'):
                  doc='HMAC(key, %sdigestmod=%s); update(a); c = copy(); c.update(b): c.digest() == RFC 2104 HMAC(key, ..a+b) and the '
                      'original still digests to HMAC(key, ..a), for keys shorter than, equal to and longer than the block size'
                      % ('msg, ' if _wm else '', _alg))(_fh_lifecycle(_alg, _wm))
+
+contract(M + 'createHMAC', name='createHMAC[default]', params={'k': T.bytes()},
+         ensures=_createhmac_ensures, raises={}, prop=PROP,
+         doc='createHMAC(k) without digestmod is HMAC-SHA1')
+REG.contracts[M + 'createHMAC'][-1].variant = 'default'       # verified like the other configurations, never applied modularly
+
+
+# ---------------------------------------------------------------------------
+# differential runs (bounded stand-ins / counterexample finders), notes
+
+for _name, _fn in (('p_hash', M + 'P_hash'), ('prf_ssl', M + 'PRF_SSL'), ('hkdf_expand', C + 'HKDF_expand'),
+                   ('hkdf_label', C + 'HKDF_expand_label'), ('calc_key', M + 'calc_key'), ('macs', M + 'MAC_SSL.digest')):
+    REG.xchecks.append({'prop': PROP, 'module': 'specs.kdf', 'name': _name, 'function': _fn})
+
+REG.note(PROP, 'assumptions', 'HKDF_expand is stated twice: on the RFC 5869 domain 0 <= L <= 255*HashLen (one obligation, '
+         'no-ValueError at bytearray([x]), does NOT discharge on the pinned tree: finding F2 / class hkdf-expand-max-length, '
+         'reproduced by specs.kdf:hkdf_expand) and on 0 <= L <= 254*HashLen where everything is proved; HKDF_expand_label and '
+         'derive_secret are stated on the second domain (TLS 1.3 asks for at most HashLen bytes)')
+REG.note(PROP, 'assumptions', 'calc_key / calcFinished / ...: all optional arguments present (transcript object, both randoms); '
+         '0 <= output_length, <= 416 for SSLv3; transcript hash of algorithm X means Hash_X(bytes fed to the X member of HandshakeHashes)')
+REG.note(PROP, 'assumptions', 'MAC_SSL.create / createMAC_SSL: digestmod is tlshashlib.md5, tlshashlib.sha1 or None (what '
+         'recordlayer passes for SSLv3); digest_size is derived by identity comparison with tlshashlib.md5, so the plain hashlib.md5 '
+         'constructor or any other hash would get digest_size 20 -- outside the stated domain')
+REG.note(PROP, 'assumptions', 'fallback HMAC.__init__: a hash *object* passed as digestmod must be fresh (nothing fed); algorithms md5, '
+         'sha1, sha256, sha384 (digest size <= block size)')
+REG.note(PROP, 'trusted', 'the fallback class tlshmac.HMAC is dead code on this interpreter: it is compiled from its ClassDef node in '
+         'the file on disk (same text and line numbers) inside a copy of the module namespace and verified from that AST')
+REG.note(PROP, 'trusted', 'float arithmetic in PRF (len/2.0, math.ceil, math.floor) modelled as exact real arithmetic: exact for '
+         'lengths below 2**53')
+REG.note(PROP, 'trusted', 'list comprehension / generator over sequences of symbolic length (pyvc/iters.py): result defined element-wise; '
+         'element-wise xor of two equal-length sequences identified with s_xor')
+REG.note(PROP, 'trusted', 'comparison of a byte string with a bytes literal is decided by length and elements (pyvc/seqlit.py)')
+REG.note(PROP, 'not_built', 'RecordLayer.calcPendingStates key-block slicing, calcTLS1_3PendingState / _calcTLS1_3KeyUpdate labels '
+         '(DESIGN C09 bullet 6) are not in contracts.kdf')
+REG.note(PROP, 'not_built', 'P_hash / PRF / HKDF are proved against uninterpreted HMAC and Hash: MD5/SHA-* themselves (hashlib, OpenSSL) '
+         'and the stdlib hmac module are not verified; specs.kdf compares the real functions with hashlib-based references')
